@@ -49,3 +49,29 @@ PROPS = {
 }
 
 NOT_CLAIMED = {}
+
+SCAN_TB = [
+    "hand models coq/Model/LiveList.v of src/fdl/live_list.rs and coq/Model/Scan.v of src/dp/scan.rs (state, transmit_telegram / receive_reply / "
+    "handle_timeout / take_last_event), driven by coq/Model/ScanBase.v in the call order the FDL layer guarantees (C15), tied by differential "
+    "execution on this run's histories",
+    "bitvec BitArr!(for 128) modelled as a Z bit mask with get -> None / set -> panic beyond 128",
+    "cargo feature verif-hooks: DpScanner::verif_iter_stations (read-only view of the private station set)",
+]
+
+PROPS["C18"] = {
+    "claimed": False,
+    "coq": "Properties/C18.v",
+    "domains": ["scan"],
+    "nontrivial": ["scan:L", "scan:S", "raw:"],
+    "rule": "cases = generated histories (own address, live list | DP scanner, up to 5 address sweeps, populations empty/sparse/dense/full/boundary "
+            "incl. the own address, appear/disappear/ident-change events, lost replies, other answers: SC, token, request, wrong source, wrong SAP, "
+            "short PDU, undecodable) plus RAW callback sequences outside the contract (panic sites), deduplicated; non-trivial = all of them "
+            "(every history polls the application at least once); distribution counts polls, probes, reaction classes, events and stable windows",
+    "trusted_base": SCAN_TB,
+    "technique": "Coq proof (induction over arbitrary histories on Gallina models of LiveList and DpScanner) + differential correspondence (transcript replay)",
+    "level_text": "placeholder",
+    "level_note": "Trusted: Coq kernel, translator, extraction + OCaml driver, Rust harness (which also plays the environment); hand models validated "
+                  "differentially, not verified; the FDL call contract (C15) is an assumption here.",
+    "design_ref": "DESIGN.md section 4, C18",
+    "assumptions": ["callbacks arrive in the order of the C15 contract", "own address 0..125", "events are collected after every callback"],
+}
